@@ -64,3 +64,34 @@ def shared_edges(blocks):
                 key = frozenset((w.vertices[0].index, w.vertices[1].index))
                 out.setdefault(key, []).append((b.index, ax.index, w))
     return out
+
+
+def families(blocks):
+    """Families of block directions that must share a count: (block index, axis index) nodes joined
+    when two directions own a wire on the same vertex pair (same edge) - and, inside one block, the
+    four wires of a direction already belong together.  Independent union-find (spec side)."""
+    parent = {}
+
+    def find(x):
+        while parent.setdefault(x, x) != x:
+            parent[x] = parent[parent[x]]
+            x = parent[x]
+        return x
+
+    def union(a, b):
+        parent[find(a)] = find(b)
+
+    edges = {}
+    for b in blocks:
+        for ax in b.axes:
+            find((b.index, ax.index))
+            for w in ax.wires:
+                key = frozenset((w.vertices[0].index, w.vertices[1].index))
+                edges.setdefault(key, []).append((b.index, ax.index))
+    for key, nodes in edges.items():
+        for n in nodes[1:]:
+            union(nodes[0], n)
+    fam = {}
+    for node in list(parent):
+        fam.setdefault(find(node), []).append(node)
+    return list(fam.values())
